@@ -42,6 +42,7 @@ def run(ctx) -> None:
     ctx.rule("R5", "parse falls back only on InvalidVersion; regex anchored, VERBOSE|IGNORECASE")
     ctx.rule("R6", "every ordering comparison / sort key in cli resolves to version.parse_version")
     ctx.rule("R8", "key components are mutually comparable: local labels are int (digits) or lower-cased str; legacy parts are str, numbers zero-padded to >= 8 digits")
+    ctx.rule("R9", "legacy key = the pkg_resources scheme: evaluated over bounded token sequences against the reference algorithm (terminates, never raises, numbers compare numerically, pre-release words before the bare version)")
     ctx.rule("R7", "canonical printing: optional segments tested with `is not None` (0 is a valid number); spellings lower-cased before normalisation")
 
     base = prog.klass(f"{M}._BaseVersion")
@@ -221,6 +222,8 @@ def run(ctx) -> None:
         ctx.check("R7", good, f"Version.__str__: segment '{seg}' printed when it `is not None`", f"{M}.Version.__str__: segment '{seg}' is tested by truthiness (a number of 0 is dropped)",
                   f"`if {unparse(t)}`: 1.0.{seg}0 would print without its {seg} segment", loc=vs.loc(st), witness=f"1.0.{seg}0")
     ctx.floor("R7", "optional segments in Version.__str__", n_seg, 5)
+    canonical_str_rule(ctx, "R7")
+    legacy_key_rule(ctx, "R9")
     from checks.c15 import to_pep440_rule, letter_normalisation
     to_pep440_rule(ctx, "R7")
     # PEP 440 "alternate spellings": exactly these are normalised, each to its short form
@@ -355,3 +358,142 @@ def run(ctx) -> None:
                   f"{M}._parse_letter_version: the number is converted to int before its presence is tested by truthiness",
                   f"`{unparse(conv[0][1])[:90]}`: `if not letter and number` is false for the int 0, so the implicit post release `1.0-0` loses its post segment (1.0-0 == 1.0)" if conv else "",
                   loc=conv[0][0].loc(conv[0][1]) if conv else plv.loc(), witness=["1.0-0", "1.0"])
+
+
+def canonical_str_rule(ctx, rule: str) -> None:
+    """Version.__str__ evaluated for every combination of epoch {0, 1}, pre {None, a0, rc1}, post/dev {None, 0, n},
+    local {None, label}: the PEP 440 canonical form `[N!]N(.N)*[{a|b|rc}N][.postN][.devN][+local]`; the post / dev
+    properties hand on the number, not the letter."""
+    import itertools
+    import types
+    from sa.model import CannotFold
+    prog = ctx.prog
+    vs = prog.klass(f"{M}.Version").methods.get("__str__")
+    wrong: T.List[str] = []
+    n = 0
+    try:
+        for epoch, pre, post, dev, local in itertools.product((0, 1), (None, ("a", 0), ("rc", 1)), (None, 0, 2), (None, 0, 3), (None, "ubuntu.1")):
+            me = types.SimpleNamespace(epoch=epoch, release=(1, 20, 0), pre=pre, post=post, dev=dev, local=local)
+            got, _ys = prog.run_body(vs, {vs.params[0]: me})
+            want = (f"{epoch}!" if epoch else "") + "1.20.0" + (f"{pre[0]}{pre[1]}" if pre is not None else "") + (f".post{post}" if post is not None else "") \
+                + (f".dev{dev}" if dev is not None else "") + (f"+{local}" if local is not None else "")
+            n += 1
+            if got != want:
+                wrong.append(f"{want!r} is printed as {got!r}")
+    except (CannotFold, TypeError, AttributeError, KeyError, ValueError, IndexError) as ex:
+        ctx.observe(f"Version.__str__ not evaluated ({type(ex).__name__}: {str(ex)[:80]}); the structural printing rules decide alone")
+        return
+    ctx.check(rule, not wrong, f"Version.__str__ prints the PEP 440 canonical form ({n} segment combinations evaluated)",
+              f"{M}.Version.__str__: a PEP 440 version is not printed in canonical form", "; ".join(wrong[:3]), loc=vs.loc(), witness={"cases": wrong[:4]})
+    props = {f.name: f for f in prog.klass(f"{M}.Version").methods.values()}
+    for seg in ("post", "dev"):
+        pf = props.get(seg)
+        if pf is None:
+            continue
+        bad: T.List[str] = []
+        try:
+            for raw, want in ((None, None), ((seg, 0), 0), ((seg, 7), 7)):
+                me = types.SimpleNamespace(_version=types.SimpleNamespace(**{seg: raw}))
+                got, _ys = prog.run_body(pf, {pf.params[0]: me})
+                if got != want or type(got) is not type(want):
+                    bad.append(f"_version.{seg} = {raw!r} -> {got!r}, expected {want!r}")
+        except (CannotFold, TypeError, AttributeError, KeyError, ValueError, IndexError):
+            continue
+        ctx.check(rule, not bad, f"Version.{seg} is the number of the {seg} segment (None when absent; 0 is a number)", f"{M}.Version.{seg}: not the number of the {seg} segment",
+                  "; ".join(bad[:2]), loc=pf.loc(), witness=f"1.0.{seg}0")
+
+
+LEGACY_MAP = {"pre": "c", "preview": "c", "-": "final-", "rc": "c", "dev": "@"}          # pkg_resources' replacement table
+
+
+def _ref_parts(tokens: T.List[str]) -> T.List[str]:
+    out = []
+    for part in tokens:
+        part = LEGACY_MAP.get(part, part)
+        if not part or part == ".":
+            continue
+        out.append(part.zfill(8) if part[:1] in "0123456789" else "*" + part)
+    out.append("*final")
+    return out
+
+
+def _ref_key(parts: T.List[str]) -> T.Tuple[int, T.Tuple[str, ...]]:
+    out: T.List[str] = []
+    for part in parts:
+        if part.startswith("*"):
+            if part < "*final":
+                while out and out[-1] == "*final-":
+                    out.pop()
+            while out and out[-1] == "00000000":
+                out.pop()
+        out.append(part)
+    return -1, tuple(out)
+
+
+def legacy_key_rule(ctx, rule: str) -> None:
+    """The two functions that build the key of a non-PEP 440 version are evaluated on bounded inputs and compared with
+    the pkg_resources algorithm they are vendored from: _parse_version_parts on every sequence of up to 3 tokens of a
+    13-token alphabet (the regex split is abstracted), _legacy_cmpkey on every sequence of up to 4 parts of a 7-part
+    alphabet.  A raise or a loop that does not end is a finding (the comparison is not total)."""
+    import itertools
+    from sa.model import Abstract, CannotFold, EvalError
+    prog = ctx.prog
+    pvp = prog.function(f"{M}._parse_version_parts")
+    lck = prog.function(f"{M}._legacy_cmpkey")
+    ctx.visit(pvp.fq, lck.fq)
+    tab = prog.const(M, "_legacy_version_replacement_map")
+    ctx.check(rule, tab == LEGACY_MAP, "_legacy_version_replacement_map is pkg_resources' table", f"{M}._legacy_version_replacement_map differs from pkg_resources' table",
+              f"{tab}", loc=f"src/bumpver/{M}.py")
+
+    class Splitter(Abstract):
+        def __init__(self, tokens: T.List[str]):
+            self.tokens = tokens
+
+        def split(self, text: T.Any) -> T.List[str]:
+            return list(self.tokens)
+    alphabet = ["", ".", "-", "0", "1", "10", "007", "a", "rc", "pre", "dev", "final", "x"]
+    wrong: T.List[str] = []
+    n = 0
+    try:
+        for k in range(0, 4):
+            for toks in itertools.product(alphabet, repeat=k):
+                if k == 3 and toks[1] not in ("", ".", "-", "0", "10", "rc"):
+                    continue          # the middle of a triple: separators, numbers and one word
+                env = {pvp.params[0]: "VERSION", "_legacy_version_component_re": Splitter(list(toks)), "__strict__": True}
+                try:
+                    ret, ys = prog.run_body(pvp, env)
+                    got = list(ys) if ys or ret is None else list(ret)
+                except EvalError as ex:
+                    got = f"raises: {ex}"
+                n += 1
+                if got != _ref_parts(list(toks)) and len(wrong) < 6:
+                    wrong.append(f"tokens {list(toks)} -> {got}, pkg_resources gives {_ref_parts(list(toks))}")
+    except (CannotFold, TypeError, AttributeError, KeyError, ValueError, IndexError) as ex:
+        ctx.observe(f"_parse_version_parts not evaluated ({type(ex).__name__}: {str(ex)[:80]})")
+        wrong, n = [], 0
+    if n:
+        ctx.check(rule, not wrong, f"_parse_version_parts == pkg_resources' part scheme on {n} token sequences (numbers zero-padded to 8, words starred, '.', '' dropped, '*final' appended)",
+                  f"{M}._parse_version_parts: the parts of a legacy version are not pkg_resources' scheme", "; ".join(wrong[:2]), loc=pvp.loc(), witness={"cases": wrong[:4]})
+    parts_alpha = ["00000000", "00000001", "*a", "*c", "*final-", "*final", "*z"]
+    wrong2: T.List[str] = []
+    n2 = 0
+    try:
+        for k in range(0, 4):
+            for seq in itertools.product(parts_alpha, repeat=k):
+                parts = list(seq) + ["*final"]
+                env = {lck.params[0]: "VERSION", "__strict__": True, "__stubs__": {"_parse_version_parts": lambda f, node, parts=parts: list(parts)}}
+                try:
+                    got2, _ys = prog.run_body(lck, env)
+                except EvalError as ex:
+                    got2 = f"raises: {ex}"
+                n2 += 1
+                want2 = _ref_key(parts)
+                if got2 != want2 and len(wrong2) < 6:
+                    wrong2.append(f"parts {parts} -> {got2}, pkg_resources gives {want2}")
+    except (CannotFold, TypeError, AttributeError, KeyError, ValueError, IndexError) as ex:
+        ctx.observe(f"_legacy_cmpkey not evaluated ({type(ex).__name__}: {str(ex)[:80]})")
+        wrong2, n2 = [], 0
+    if n2:
+        ctx.check(rule, not wrong2, f"_legacy_cmpkey == pkg_resources' key on {n2} part sequences (epoch -1; trailing zero groups and '-' before a pre-release word removed; terminates)",
+                  f"{M}._legacy_cmpkey: the key of a legacy version is not pkg_resources' key (or is not computed at all)", "; ".join(wrong2[:2]), loc=lck.loc(), witness={"cases": wrong2[:4]})
+    ctx.floor(rule, "legacy key functions evaluated", int(bool(n)) + int(bool(n2)), 0)
